@@ -1,13 +1,15 @@
 (** C10: restart on the same stores resumes without loss or regression - after a crash at any
-    point (but one) of any operation, and after a clean restart.
+    point of any operation, and after a clean restart.
 
     Summary of what is proved here (mirror model, [Model/Mirror.v]):
       - [reachable_g]: states reachable from the initial state by operations, clean restarts and
-        crashes ([xstep]), with the side conditions [wf_op] (those of MirrorTotal's [reachable_a]
-        plus: no offered signature collection has an empty signature list [op_nonempty]; the next
-        validator set of an accepted / replayed header has at least one key), restricted to
-        [clean_cut] crash points (every crash point except the single one between the
-        committed-header write and the position write of a commit).
+        crashes ([xstep]), with the side conditions [wf_op]: those of MirrorTotal's [reachable_a]
+        ([op_bounded], [step_adm]: the next validator set of an accepted / replayed header has
+        non-zero power, a replayed round is a uint32) plus "that next set has at least one key"
+        (implied by non-zero power in Go, not in the model: Proofs/MirrorResumeWit.v,
+        [keys_guard_needed_in_model]); the crashes of the HISTORY are restricted to [clean_cut]
+        points (every crash point except the single one between the committed-header write and
+        the position write of a commit).
       - [reachable_g_K]: every such state satisfies [INV] (cinv, auth_state, sinv, hinv), [tinv]
         and the store invariant [SI] of its stores.
       - [startup_never_fails_partial], [startup_never_fails_any_cut]: from every such state a
@@ -15,7 +17,8 @@
         admissible operation (at the one cut that is not clean only totality is proved).
       - [no_regression_partial]: the state after such a restart / crash has lost no committed
         header and its stored position is not behind the position stored before ([sadv]).
-    The full statement (1) is FALSE without [op_nonempty]: Proofs/MirrorResumeWit.v. *)
+    The former guard "no offered signature collection has an empty signature list" is gone: the
+    kernel now skips such entries ([signed_entries]), as the repaired Go code does. *)
 From Coq Require Import List NArith Arith Bool Lia String.
 From GV Require Import Base.Ints Gen.Math Gen.Kernel Model.Mirror
   Proofs.Thresholds Proofs.MirrorAuth Proofs.MirrorNoop Proofs.MirrorChain Proofs.MirrorCert
@@ -28,7 +31,7 @@ Local Open Scope N_scope.
 
 (** * Side conditions *)
 Definition wf_op (o : op) (res : N) : Prop :=
-  op_bounded o /\ step_adm o res /\ op_nonempty o /\
+  op_bounded o /\ step_adm o res /\
   match o with
   | OpPH p => ph_adm p res
   | OpReplay x _ => vs_keys (hd_next x) <> []
@@ -59,16 +62,16 @@ Lemma K_step ih ivs s o s' res :
   K ih ivs s -> tinv s -> wf_op o res -> step s o = Ok (s', res) ->
   K ih ivs s' /\ tinv s' /\ pref ih ivs s s'.
 Proof.
-  intros HK HT (Hb&Hadm&Hne&Hph) Hs.
+  intros HK HT (Hb&Hadm&Hph) Hs.
   assert (HT' : tinv s') by (eapply tinv_step; [exact (proj1 HK)|exact HT|exact Hadm|exact Hs]).
   assert (G : K ih ivs s' /\ pref ih ivs s s'); [|split; [exact (proj1 G)|split; [exact HT'|exact (proj2 G)]]].
   destruct o as [p|m|m|x cp]; cbn [step] in Hs.
   - unfold handle_ph in Hs. destruct (ph_key p).
     + eapply K_handle_ph_loop; eassumption.
     + inversion Hs; subst. split; [exact HK|apply pref_refl; exact (proj2 (proj2 (proj2 (proj2 (proj2 (proj2 HK))))))].
-  - eapply K_handle_votes; [left; reflexivity|exact HK|exact Hne|exact Hs].
-  - eapply K_handle_votes; [right; reflexivity|exact HK|exact Hne|exact Hs].
-  - cbn in Hb, Hadm, Hne, Hph. eapply K_handle_replay; [exact HK|exact HT|exact Hb|exact (proj1 Hadm)|exact Hph|exact Hne|exact Hs].
+  - eapply K_handle_votes; [left; reflexivity|exact HK|exact Hs].
+  - eapply K_handle_votes; [right; reflexivity|exact HK|exact Hs].
+  - cbn in Hb, Hadm, Hph. eapply K_handle_replay; [exact HK|exact HT|exact Hb|exact (proj1 Hadm)|exact Hph|exact Hs].
 Qed.
 
 (** * Restart on stores satisfying [SI] that are not behind given stores *)
